@@ -119,7 +119,7 @@ type vc29Layout struct {
 }
 
 // one publisher session pushed through a transcription of the recorder's fMP4 segmenter
-func vc29Session(r *vRand, tracks []*vc29Track, lay vc29Layout, nsegs int, nextID *int64, sess int) []*vc29Seg {
+func vc29Session(r *vRand, tracks []*vc29Track, lay vc29Layout, nsegs int, nextID *int64, sess int, contNum *uint64) []*vc29Seg {
 	total := time.Duration(nsegs)*lay.segDur + time.Duration(r.Intn(1500))*time.Millisecond
 	sessGo0 := time.Duration(r.Intn(100))*time.Second + time.Duration(r.Intn(1000000000))
 	var ins []*vc29In
@@ -195,6 +195,9 @@ func vc29Session(r *vRand, tracks []*vc29Track, lay vc29Layout, nsegs int, nextI
 	number := uint64(r.Intn(3))
 	if r.Chance(1, 20) {
 		number = math.MaxUint64 - uint64(r.Intn(2))
+	}
+	if contNum != nil { // numbers go on where the previous session stopped (another stream id nevertheless)
+		number = *contNum
 	}
 	closePart := func() {
 		if cur.curPart == nil {
@@ -389,16 +392,18 @@ func vc29Recording_(r *vRand, dir string) *vc29Recording {
 		}
 		lay := vc29Layout{segDur: time.Duration(1+r.Intn(3)) * time.Second,
 			partDur: vPick(r, []time.Duration{300 * time.Millisecond, 500 * time.Millisecond, time.Second})}
-		segs := vc29Session(r, tracks, lay, 1+r.Intn(3), &nextID, se)
+		var contNum *uint64
+		if se > 0 && len(rec.segs) > 0 && r.Chance(1, 3) {
+			v := rec.segs[len(rec.segs)-1].num + 1
+			contNum = &v
+		}
+		segs := vc29Session(r, tracks, lay, 1+r.Intn(3), &nextID, se, contNum)
 		if len(segs) == 0 {
 			continue
 		}
 		var sid [16]byte
 		for i := range sid {
 			sid[i] = byte(r.Intn(256))
-		}
-		if se > 0 && r.Chance(1, 10) { // same stream id again (numbers restart): not a server behaviour, kept rare
-			copy(sid[:], rec.segs[len(rec.segs)-1].sid[:])
 		}
 		mtxi := mode == "mtxi" || (mode == "mixed" && se > 0)
 		rel0 := segs[0].start.UnixNano()
